@@ -411,6 +411,51 @@ func C04Gen(r *Run) {
 			}
 		}
 	}
+	// (c) a hub vertex with several hundred incident edges: DelVertex then removes more than a
+	// thousand keys (three per edge), DeleteGraph several thousand — the sizes at which a delete
+	// might be split into several store transactions.  Every cut until the call completes.
+	{
+		l := func(xs ...interface{}) []interface{} { return xs }
+		nhub := 340
+		if r.Tier == "thorough" {
+			nhub = 700
+		}
+		es := []interface{}{}
+		for i := 0; i < nhub; i++ {
+			switch i % 3 {
+			case 0:
+				es = append(es, c03E(fmt.Sprintf("h%03d", i), "L", "h", "a", nil))
+			case 1:
+				es = append(es, c03E(fmt.Sprintf("h%03d", i), "M", "b", "h", nil))
+			default:
+				es = append(es, c03E(fmt.Sprintf("h%03d", i), "L", "h", "h", nil))
+			}
+		}
+		hub := []map[string]interface{}{
+			{"op": "addGraph", "g": "g1"},
+			{"op": "addV", "g": "g1", "vs": l(c03V("h", "L", nil), c03V("a", "L", nil), c03V("b", "M", nil))},
+			{"op": "addE", "g": "g1", "es": es},
+		}
+		for _, t := range []map[string]interface{}{{"op": "delV", "g": "g1", "id": "h"}, {"op": "delGraph", "g": "g1"}} {
+			for k := 0; k < 64; k++ {
+				emit(reset)
+				for _, op := range hub {
+					emit(op)
+				}
+				o := emit(c04Crash(k, t))
+				emit(c03ObserveWide)
+				r.Count("crash_cases")
+				r.Count("crash_hub:" + opKind(t))
+				if k > 0 {
+					r.NonTrivial(fmt.Sprintf("hub-%s-%d", opKind(t), k))
+				}
+				if ab, _ := o["aborted"].(bool); !ab {
+					r.Dist[fmt.Sprintf("writes_hub:%s:%d", opKind(t), k)]++
+					break
+				}
+			}
+		}
+	}
 	r.Dist["crash_states"] = len(states)
 	r.Exhaustive = false
 }
